@@ -43,6 +43,7 @@ import (
 	"github.com/versity/versitygw/s3api/utils"
 	"github.com/versity/versitygw/s3err"
 	"github.com/versity/versitygw/s3response"
+	"github.com/versity/versitygw/verifhook"
 )
 
 type Posix struct {
@@ -388,6 +389,7 @@ func (p *Posix) CreateBucket(ctx context.Context, input *s3.CreateBucketInput, a
 		return fmt.Errorf("mkdir bucket: %w", err)
 	}
 
+	verifhook.At("mkbkt.mkdir", "bucket", bucket)
 	if doChown {
 		err := os.Chown(bucket, uid, gid)
 		if err != nil {
@@ -399,6 +401,7 @@ func (p *Posix) CreateBucket(ctx context.Context, input *s3.CreateBucketInput, a
 	if err != nil {
 		return fmt.Errorf("set acl: %w", err)
 	}
+	verifhook.At("mkbkt.acl_set", "bucket", bucket)
 	err = p.meta.StoreAttribute(nil, bucket, "", ownershipkey, []byte(input.ObjectOwnership))
 	if err != nil {
 		return fmt.Errorf("set ownership: %w", err)
@@ -476,11 +479,13 @@ func (p *Posix) DeleteBucket(_ context.Context, bucket string) error {
 		return err
 	}
 
+	verifhook.At("delbkt.checked", "bucket", bucket)
 	// Remove the bucket
 	err = os.RemoveAll(bucket)
 	if err != nil {
 		return fmt.Errorf("remove bucket: %w", err)
 	}
+	verifhook.At("delbkt.removed", "bucket", bucket)
 	// Remove the bucket from versioning directory
 	if p.versioningEnabled() {
 		err = os.RemoveAll(filepath.Join(p.versioningDir, bucket))
@@ -719,6 +724,7 @@ func (p *Posix) createObjVersion(bucket, key string, size int64, acc auth.Accoun
 		return versionPath, err
 	}
 
+	verifhook.At("ver.copied", "bucket", bucket, "obj", key)
 	versionPath = filepath.Join(versionBucketPath, versioningKey)
 
 	err = os.MkdirAll(filepath.Join(versionBucketPath, genObjVersionKey(key)), p.newDirPerm)
@@ -739,10 +745,12 @@ func (p *Posix) createObjVersion(bucket, key string, size int64, acc auth.Accoun
 		}
 	}
 
+	verifhook.At("ver.attrs_done", "bucket", bucket, "obj", key)
 	if err := f.link(); err != nil {
 		return versionPath, err
 	}
 
+	verifhook.At("ver.linked", "bucket", bucket, "obj", key)
 	return versionPath, nil
 }
 
@@ -1489,6 +1497,7 @@ func (p *Posix) CompleteMultipartUpload(ctx context.Context, input *s3.CompleteM
 		return nil, s3err.GetIncorrectMpObjectSizeErr(totalsize, *input.MpuObjectSize)
 	}
 
+	verifhook.At("cmp.validated", "bucket", bucket, "obj", object)
 	var hashRdr *utils.HashReader
 	var compositeChecksumRdr *utils.CompositeChecksumReader
 	switch checksums.Type {
@@ -1543,6 +1552,7 @@ func (p *Posix) CompleteMultipartUpload(ctx context.Context, input *s3.CompleteM
 		}
 	}
 
+	verifhook.At("cmp.assembled", "bucket", bucket, "obj", object)
 	upiddir := filepath.Join(objdir, uploadID)
 
 	userMetaData := make(map[string]string)
@@ -1699,17 +1709,20 @@ func (p *Posix) CompleteMultipartUpload(ctx context.Context, input *s3.CompleteM
 		return nil, fmt.Errorf("set etag attr: %w", err)
 	}
 
+	verifhook.At("cmp.attrs_done", "bucket", bucket, "obj", object)
 	err = f.link()
 	if err != nil {
 		return nil, fmt.Errorf("link object in namespace: %w", err)
 	}
 
+	verifhook.At("cmp.linked", "bucket", bucket, "obj", object)
 	// cleanup tmp dirs
 	os.RemoveAll(filepath.Join(bucket, objdir, uploadID))
 	// use Remove for objdir in case there are still other uploads
 	// for same object name outstanding, this will fail if there are
 	os.Remove(filepath.Join(bucket, objdir))
 
+	verifhook.At("cmp.cleaned", "bucket", bucket, "obj", object)
 	return &s3.CompleteMultipartUploadOutput{
 		Bucket:            &bucket,
 		ETag:              &s3MD5,
@@ -2403,6 +2416,7 @@ func (p *Posix) UploadPart(ctx context.Context, input *s3.UploadPartInput) (*s3.
 		}
 		return nil, fmt.Errorf("write part data: %w", err)
 	}
+	verifhook.At("part.body_done", "bucket", bucket, "part", partPath)
 
 	dataSum := hash.Sum(nil)
 	etag := hex.EncodeToString(dataSum)
@@ -2450,11 +2464,13 @@ func (p *Posix) UploadPart(ctx context.Context, input *s3.UploadPartInput) (*s3.
 		}
 	}
 
+	verifhook.At("part.attrs_done", "bucket", bucket, "part", partPath)
 	err = f.link()
 	if err != nil {
 		return nil, fmt.Errorf("link object in namespace: %w", err)
 	}
 
+	verifhook.At("part.linked", "bucket", bucket, "part", partPath)
 	return res, nil
 }
 
@@ -2705,6 +2721,7 @@ func (p *Posix) PutObject(ctx context.Context, po s3response.PutObjectInput) (s3
 	name := filepath.Join(*po.Bucket, *po.Key)
 
 	uid, gid, doChown := p.getChownIDs(acct)
+	verifhook.At("put.begin", "path", name)
 
 	contentLength := int64(0)
 	if po.ContentLength != nil {
@@ -2726,6 +2743,7 @@ func (p *Posix) PutObject(ctx context.Context, po s3response.PutObjectInput) (s3
 			}
 			return s3response.PutObjectOutput{}, err
 		}
+		verifhook.At("put.dir_made", "path", name)
 
 		for k, v := range po.Metadata {
 			err := p.meta.StoreAttribute(nil, *po.Bucket, *po.Key,
@@ -2763,6 +2781,7 @@ func (p *Posix) PutObject(ctx context.Context, po s3response.PutObjectInput) (s3
 
 	// object is file
 	d, err := os.Stat(name)
+	verifhook.At("put.stat_name", "path", name)
 	if err == nil && d.IsDir() {
 		return s3response.PutObjectOutput{}, s3err.GetAPIError(s3err.ErrExistingObjectIsDirectory)
 	}
@@ -2794,6 +2813,7 @@ func (p *Posix) PutObject(ctx context.Context, po s3response.PutObjectInput) (s3
 		return s3response.PutObjectOutput{}, fmt.Errorf("stat object: %w", err)
 	}
 
+	verifhook.At("put.versioned", "path", name)
 	f, err := p.openTmpFile(filepath.Join(*po.Bucket, metaTmpDir),
 		*po.Bucket, *po.Key, contentLength, acct, doFalloc, p.forceNoTmpFile)
 	if err != nil {
@@ -2804,6 +2824,7 @@ func (p *Posix) PutObject(ctx context.Context, po s3response.PutObjectInput) (s3
 	}
 	defer f.cleanup()
 
+	verifhook.At("put.tmp_open", "path", name)
 	hash := md5.New()
 	rdr := io.TeeReader(po.Body, hash)
 
@@ -2845,6 +2866,7 @@ func (p *Posix) PutObject(ctx context.Context, po s3response.PutObjectInput) (s3
 		}
 		return s3response.PutObjectOutput{}, fmt.Errorf("write object data: %w", err)
 	}
+	verifhook.At("put.body_done", "path", name)
 
 	dir := filepath.Dir(name)
 	if dir != "" {
@@ -2938,6 +2960,7 @@ func (p *Posix) PutObject(ctx context.Context, po s3response.PutObjectInput) (s3
 		}
 	}
 
+	verifhook.At("put.attrs_done", "path", name)
 	err = f.link()
 	if errors.Is(err, syscall.EEXIST) {
 		return s3response.PutObjectOutput{
@@ -2949,6 +2972,7 @@ func (p *Posix) PutObject(ctx context.Context, po s3response.PutObjectInput) (s3
 		return s3response.PutObjectOutput{}, s3err.GetAPIError(s3err.ErrExistingObjectIsDirectory)
 	}
 
+	verifhook.At("put.linked", "path", name)
 	// Set object tagging
 	if tags != nil {
 		err := p.PutObjectTagging(ctx, *po.Bucket, *po.Key, tags)
@@ -2963,6 +2987,7 @@ func (p *Posix) PutObject(ctx context.Context, po s3response.PutObjectInput) (s3
 		}
 	}
 
+	verifhook.At("put.tags_done", "path", name)
 	// Set object legal hold
 	if po.ObjectLockLegalHoldStatus == types.ObjectLockLegalHoldStatusOn {
 		err := p.PutObjectLegalHold(ctx, *po.Bucket, *po.Key, "", true)
@@ -2971,6 +2996,7 @@ func (p *Posix) PutObject(ctx context.Context, po s3response.PutObjectInput) (s3
 		}
 	}
 
+	verifhook.At("put.hold_done", "path", name)
 	// Set object retention
 	if po.ObjectLockMode != "" {
 		retention := types.ObjectLockRetention{
@@ -2987,6 +3013,7 @@ func (p *Posix) PutObject(ctx context.Context, po s3response.PutObjectInput) (s3
 		}
 	}
 
+	verifhook.At("put.done", "path", name)
 	return s3response.PutObjectOutput{
 		ETag:              etag,
 		VersionID:         versionID,
@@ -3063,12 +3090,14 @@ func (p *Posix) DeleteObject(ctx context.Context, input *s3.DeleteObjectInput) (
 					return nil, err
 				}
 			}
+			verifhook.At("del.versioned", "path", objpath)
 
 			// Mark the object as a delete marker
 			err = p.meta.StoreAttribute(nil, bucket, object, deleteMarkerKey, []byte{})
 			if err != nil {
 				return nil, fmt.Errorf("set delete marker: %w", err)
 			}
+			verifhook.At("del.marker_set", "path", objpath)
 
 			versionId := nullVersionId
 			if p.isBucketVersioningEnabled(vStatus) {
@@ -3085,6 +3114,7 @@ func (p *Posix) DeleteObject(ctx context.Context, input *s3.DeleteObjectInput) (
 				}
 			}
 
+			verifhook.At("del.vid_set", "path", objpath)
 			return &s3.DeleteObjectOutput{
 				DeleteMarker: getBoolPtr(true),
 				VersionId:    &versionId,
@@ -3108,10 +3138,12 @@ func (p *Posix) DeleteObject(ctx context.Context, input *s3.DeleteObjectInput) (
 				if err != nil {
 					return nil, err
 				}
+				verifhook.At("delv.begin", "path", objpath)
 				err = os.Remove(objpath)
 				if err != nil {
 					return nil, fmt.Errorf("remove obj version: %w", err)
 				}
+				verifhook.At("delv.removed", "path", objpath)
 
 				ents, err := os.ReadDir(versionPath)
 				if errors.Is(err, fs.ErrNotExist) {
@@ -3164,6 +3196,7 @@ func (p *Posix) DeleteObject(ctx context.Context, input *s3.DeleteObjectInput) (
 				if err := f.link(); err != nil {
 					return nil, fmt.Errorf("link tmp file: %w", err)
 				}
+				verifhook.At("delv.linked", "path", objpath)
 
 				attrs, err := p.meta.ListAttributes(versionPath, srcVersionId)
 				if err != nil {
@@ -3182,10 +3215,12 @@ func (p *Posix) DeleteObject(ctx context.Context, input *s3.DeleteObjectInput) (
 					}
 				}
 
+				verifhook.At("delv.attrs_done", "path", objpath)
 				err = os.Remove(filepath.Join(versionPath, srcVersionId))
 				if err != nil {
 					return nil, fmt.Errorf("remove obj version %w", err)
 				}
+				verifhook.At("delv.src_removed", "path", objpath)
 
 				p.removeParents(filepath.Join(p.versioningDir, bucket), filepath.Join(genObjVersionKey(object), *input.VersionId))
 
@@ -3197,6 +3232,7 @@ func (p *Posix) DeleteObject(ctx context.Context, input *s3.DeleteObjectInput) (
 
 			isDelMarker, _ := p.isObjDeleteMarker(versionPath, *input.VersionId)
 
+			verifhook.At("delv.old_begin", "path", objpath)
 			err = os.Remove(filepath.Join(versionPath, *input.VersionId))
 			if errors.Is(err, syscall.ENAMETOOLONG) {
 				return nil, s3err.GetAPIError(s3err.ErrKeyTooLong)
@@ -3217,6 +3253,7 @@ func (p *Posix) DeleteObject(ctx context.Context, input *s3.DeleteObjectInput) (
 		}
 	}
 
+	verifhook.At("del.begin", "path", objpath)
 	fi, err := os.Stat(objpath)
 	if errors.Is(err, syscall.ENAMETOOLONG) {
 		return nil, s3err.GetAPIError(s3err.ErrKeyTooLong)
@@ -3242,6 +3279,7 @@ func (p *Posix) DeleteObject(ctx context.Context, input *s3.DeleteObjectInput) (
 		return &s3.DeleteObjectOutput{}, nil
 	}
 
+	verifhook.At("del.stat", "path", objpath)
 	err = os.Remove(objpath)
 	if errors.Is(err, fs.ErrNotExist) {
 		return nil, s3err.GetAPIError(s3err.ErrNoSuchKey)
@@ -3268,11 +3306,13 @@ func (p *Posix) DeleteObject(ctx context.Context, input *s3.DeleteObjectInput) (
 		return nil, fmt.Errorf("delete object: %w", err)
 	}
 
+	verifhook.At("del.removed", "path", objpath)
 	err = p.meta.DeleteAttributes(bucket, object)
 	if err != nil {
 		return nil, fmt.Errorf("delete object attributes: %w", err)
 	}
 
+	verifhook.At("del.attrs_removed", "path", objpath)
 	p.removeParents(bucket, object)
 
 	return &s3.DeleteObjectOutput{}, nil
@@ -3407,7 +3447,9 @@ func (p *Posix) GetObject(_ context.Context, input *s3.GetObjectInput) (*s3.GetO
 
 	objPath := filepath.Join(bucket, object)
 
+	verifhook.At("get.begin", "path", objPath)
 	fi, err := os.Stat(objPath)
+	verifhook.At("get.stat_obj", "path", objPath)
 	if errors.Is(err, fs.ErrNotExist) || errors.Is(err, syscall.ENOTDIR) {
 		if versionId != "" {
 			return nil, s3err.GetAPIError(s3err.ErrInvalidVersionId)
@@ -3537,6 +3579,7 @@ func (p *Posix) GetObject(_ context.Context, input *s3.GetObjectInput) (*s3.GetO
 		tagCount = &tgCount
 	}
 
+	verifhook.At("get.attrs", "path", objPath)
 	f, err := os.Open(objPath)
 	if errors.Is(err, fs.ErrNotExist) {
 		return nil, s3err.GetAPIError(s3err.ErrNoSuchKey)
@@ -3544,6 +3587,7 @@ func (p *Posix) GetObject(_ context.Context, input *s3.GetObjectInput) (*s3.GetO
 	if err != nil {
 		return nil, fmt.Errorf("open object: %w", err)
 	}
+	verifhook.At("get.opened", "path", objPath)
 
 	var checksums s3response.Checksum
 	var cType types.ChecksumType
@@ -3682,6 +3726,7 @@ func (p *Posix) HeadObject(ctx context.Context, input *s3.HeadObjectInput) (*s3.
 	objPath := filepath.Join(bucket, object)
 
 	fi, err := os.Stat(objPath)
+	verifhook.At("head.stat_obj", "path", objPath)
 	if errors.Is(err, fs.ErrNotExist) || errors.Is(err, syscall.ENOTDIR) {
 		if versionId != "" {
 			return nil, s3err.GetAPIError(s3err.ErrInvalidVersionId)
@@ -3773,6 +3818,7 @@ func (p *Posix) HeadObject(ctx context.Context, input *s3.HeadObjectInput) (*s3.
 		}
 	}
 
+	verifhook.At("head.attrs", "path", objPath)
 	return &s3.HeadObjectOutput{
 		ContentLength:             &size,
 		ContentType:               objMeta.ContentType,
